@@ -58,7 +58,7 @@ def sessions(K, MaxFault):
     return [p for p in r.printed if isinstance(p, list)], r
 
 
-def _run(pid, tier, seed, models, mutants, graph_sets, decorate, level_text, assumptions, design_rule):
+def _run(pid, tier, seed, models, mutants, graph_sets, decorate, level_text, assumptions, design_rule, write=True):
     t0 = time.time()
     verdict = vlib.Verdict(pid)
     states = trans = 0
@@ -137,6 +137,8 @@ def _run(pid, tier, seed, models, mutants, graph_sets, decorate, level_text, ass
                      "events": by_id[i]["events"][:8], "jvp": by_id[i]["jvp"]} for i in sample_ids],
         "known_findings_reobserved": verdict.known_hits,
     }
+    if not write:
+        return verdict, coverage
     rc = verdict.finish()
     vlib.write_evidence(pid, tier, seed, "model_checking", coverage, assumptions, time.time() - t0, len(verdict.violations))
     return rc
@@ -252,10 +254,30 @@ def c11(tier, seed, replay=None):
     mutants = [("MutAddNoneAliases", dict(N=3, MaxAr=2, KindMode="node"))]
     sets = [dict(N=3, Family="star"), dict(N=2, Family="star")] if quick else [dict(N=4, Family="star"), dict(N=3, Family="star"),
                                                                            dict(N=2, Family="star")]
-    return _run("C11", tier, seed, models, mutants, sets, decorate, "", ASSUME,
-                "star graphs: one value with k sparse and m dense uses (k+m <= 3 quick / 4 thorough, plus an optional direct use), every "
-                "assignment of contribution kinds to positions = every arrival order at the shared value; each run with logging "
-                "primitives (SparseObject contributions) and with built-in x[idx] / * / + operators")
+    t0 = time.time()
+    v1, cov1 = _run("C11", tier, seed, models, mutants, sets, decorate, "", ASSUME,
+                    "star graphs: one value with k sparse and m dense uses (k+m <= 3 quick / 4 thorough, plus an optional direct use), every "
+                    "assignment of contribution kinds to positions = every arrival order at the shared value; each run with logging "
+                    "primitives (SparseObject contributions) and with built-in x[idx] / * / + operators", write=False)
+    # second half of the property: every index expression scatters exactly (rule-table machinery, judged by Contract!C11)
+    from checks import rules
+    v2, cov2 = rules.c11_index(tier, seed)
+    cov = dict(cov1)
+    cov["states"] += cov2["states"]
+    cov["transitions"] += cov2["transitions"]
+    cov["traces_validated_against_impl"] += cov2["traces_validated_against_impl"]
+    cov["evaluations"] += cov2["evaluations"]
+    cov["distinct_nontrivial"] += cov2["distinct_nontrivial"]
+    cov["index_expressions"] = {k: cov2[k] for k in ("families", "not_evaluated", "calls_that_raised", "observations_rejected_by_contract",
+                                                      "exact_tier", "projection_tier", "rule")}
+    cov["samples"] = cov1["samples"][:2] + cov2["samples"][:2]
+    cov["known_findings_reobserved"] = dict(v1.known_hits, **v2.known_hits)
+    v1.violations += v2.violations
+    for k, n in v2.known_hits.items():
+        v1.known_hits[k] = v1.known_hits.get(k, 0) + n
+    rc = v1.finish()
+    vlib.write_evidence("C11", tier, seed, "model_checking", cov, ASSUME + rules.ASSUME, time.time() - t0, len(v1.violations))
+    return rc
 
 
 def _replay(pid, path):
